@@ -77,6 +77,23 @@ Definition go_sbyte (s : string) (i : Z) : Z := go_sbyte_nat s (Z.to_nat i).
 Inductive go_issue := GoError | GoWarning | GoTimeCheck.
 Definition go_err_isnil (e : option string) : bool := match e with None => true | Some _ => false end.
 
+(* a map from strings to any other type of value: the get takes the value to answer for a missing key *)
+Fixpoint go_plookup {V} (m : list (string * V)) (k : string) : option V :=
+  match m with
+  | [] => None
+  | (k', v) :: r => if String.eqb k' k then Some v else go_plookup r k
+  end.
+Definition go_pget {V} (d : V) (m : list (string * V)) (k : string) : V * bool :=
+  match go_plookup m k with Some v => (v, true) | None => (d, false) end.
+Fixpoint go_pset {V} (m : list (string * V)) (k : string) (v : V) : list (string * V) :=
+  match m with
+  | [] => [(k, v)]
+  | (k', v') :: r => if String.eqb k' k then (k, v) :: r else (k', v') :: go_pset r k v
+  end.
+(* a ValidationIssue held by value: (text, blocking, time check) - what it is once it is added to the results *)
+Definition go_issue_of (i : string * bool * bool) : go_issue :=
+  let '(_, b, tc) := i in if b then GoError else if tc then GoTimeCheck else GoWarning.
+
 (* a map to the empty struct used as a set: the list of its members in the order they went in *)
 Definition go_smem (s : list string) (k : string) : bool := existsb (String.eqb k) s.
 Definition go_sadd (s : list string) (k : string) : list string := if go_smem s k then s else (s ++ [k])%list.
